@@ -6,6 +6,7 @@
 import FqeVerif.Generated.BitsC
 import FqeVerif.Lemmas.Bits
 import FqeVerif.Model.Strings
+import FqeVerif.Model.Maps
 namespace GenC
 open Model
 
@@ -122,5 +123,53 @@ theorem gosper_next_toNat (c : BitVec 64) : (gosper_next c).toNat = gosperNext c
   simp only [BitVec.toNat_or, BitVec.toNat_ushiftRight, BitVec.toNat_udiv, BitVec.toNat_and, BitVec.toNat_add,
     BitVec.toNat_neg, BitVec.toNat_not]
   rw [← and_not_toNat _ _ c.isLt]
+
+end GenC
+
+namespace GenC
+open Model
+
+theorem check_bit_zero_iff (b : BitVec 64) (p : Nat) (hp : p < 64) :
+    ((check_bit b p) == 0#64) = decide (getBit b.toNat p = 0) := by
+  have h := check_bit_eq b p hp
+  by_cases hz : getBit b.toNat p = 0
+  · have : check_bit b p = 0#64 := by
+      apply BitVec.eq_of_toNat_eq
+      rw [h, hz]; rfl
+    simp [this, hz]
+  · have : check_bit b p ≠ 0#64 := by
+      intro e
+      apply hz
+      rw [← h, e]; rfl
+    simp [this, hz]
+
+/-- the entry the C table builder writes for one string (translated from fci_graph.c on every run) is `mappingEntry`
+    of the Model — hence the Spec action of a†_i a_j with its sign — for every 64-bit string and all orbitals < 64 -/
+theorem c_build_mapping_entry (s : BitVec 64) (i j : Nat) (hi : i < 64) (hj : j < 64) :
+    (build_mapping_entry s i j).map (fun x => (x.1.toNat, x.2.1.toNat, x.2.2)) =
+      (mappingEntry i j s.toNat).map (fun x => (x.1, x.2.1, if x.2.2 then (-1 : Int) else 1)) := by
+  unfold build_mapping_entry mappingEntry
+  rw [check_bit_zero_iff s j hj, check_bit_zero_iff s i hi]
+  by_cases h1 : getBit s.toNat j = 0
+  · by_cases hij : i = j
+    · subst hij
+      simp [h1]
+    · simp [h1, hij]
+  · by_cases h2 : getBit s.toNat i = 0
+    · simp only [h1, h2, decide_false, decide_true, Bool.not_false, Bool.not_true, Bool.and_self, if_true,
+        ne_eq, not_false_eq_true, and_self, Option.map_some]
+      have e1 : (unset_bit (set_bit s i) j).toNat = unsetBit (setBit s.toNat i) j := by
+        rw [unset_bit_eq _ j hj, set_bit_eq s i hi]
+      rw [e1, count_bits_between_eq s i j hi hj]
+      by_cases hp : countBitsBetween s.toNat i j % 2 = 1
+      · have : ¬ countBitsBetween s.toNat i j % 2 = 0 := by omega
+        simp [hp, this]
+      · have : countBitsBetween s.toNat i j % 2 = 0 := by omega
+        simp [hp, this]
+    · by_cases hij : i = j
+      · subst hij
+        simp [h1]
+      · simp [h1, h2, hij]
+
 
 end GenC
